@@ -63,6 +63,22 @@ def rollout (f : List α → List β) (bs : Nat) (ds : List α) : List β :=
   -- `torch.cat([eval_policy(batch) for batch in dl], 0)`; any other shape: nothing known
   if Params.blRolloutLoaderPlain && Params.blRolloutPlainConcat then ((chunks bs ds).map f).flatten else []
 
+/-- a rollout function evaluates the policy in the mode it put it in: `fEval` (inference behaviour: running batch-norm
+statistics, no dropout — row-wise) if it calls `.eval()` first, otherwise whatever mode the caller left it in
+(`fTrain` during `fit`: batch statistics, i.e. NOT row-wise) -/
+def rolloutWith (evalMode : Bool) (fEval fTrain : List α → List β) (bs : Nat) (ds : List α) : List β :=
+  rollout (if evalMode then fEval else fTrain) bs ds
+
+/-- `RolloutBaseline.rollout` (`policy.eval()` regenerated from the source) -/
+def blRollout (fEval fTrain : List α → List β) (bs : Nat) (ds : List α) : List β :=
+  rolloutWith Params.blRolloutEvalMode fEval fTrain bs ds
+
+/-- MDAM's own rollout function (`zoo/mdam/model.py:rollout`, installed into the rollout baseline): `model.eval()`,
+sequential loader, `torch.cat([eval_model(batch) for batch in dl], 0)` with `eval_model` = best greedy reward over
+the decoder paths (part of `fEval`) -/
+def mdamRollout (fEval fTrain : List α → List β) (bs : Nat) (ds : List α) : List β :=
+  if Params.mdamRolloutPlainConcat then rolloutWith Params.mdamRolloutEvalMode fEval fTrain bs ds else []
+
 /-- a batch function that acts row by row (what a policy in `eval()` mode with greedy decoding is
 assumed to be; checked on the stub policies the harness uses, an assumption for real networks) -/
 def RowWise (f : List α → List β) : Prop := ∃ g : α → β, ∀ xs, f xs = xs.map g
